@@ -17,7 +17,9 @@ FromLog(r) ==
   [maxU |-> r.maxU, seqD |-> r.seqD, seqM |-> r.seqM, cls |-> r.cls, mts |-> r.mts,
    supC |-> r.supC, bal |-> r.bal]
 
-ObsOf(r) == [inexact |-> r.inexact, invBroken |-> r.invBroken]
+(* base / hunit: the history's amount map (harness): a real amount a * 2^base + v is
+   logged as a' * hunit + v *)
+ObsOf(r) == [inexact |-> r.inexact, invBroken |-> r.invBroken, base |-> r.base, hunit |-> r.hunit]
 
 TraceInit ==
   /\ Trace[1].ev.name = "Init"
@@ -49,7 +51,8 @@ TraceNext ==
 TraceSpec == TraceInit /\ [][TraceNext]_tvars
 
 -----------------------------------------------------------------------------
-(* every logged amount was of the form a * 2^63 + v with |v| < 2^27 *)
+(* every logged amount was of the form a * 2^base + v with |v| < hunit/2 (and, for
+   bases below 2^53, a in one of the two representable zones) *)
 Scale_Exact == obs.inexact = 0
 (* the module's registered invariant (mt "supply") *)
 Crisis_Invariant == ~obs.invBroken
@@ -74,7 +77,11 @@ Monitor == Failing = {} \/ PrintT(<<"CLAUSE-FAIL", l - 1, Failing, Apply(pre, ev
 
 (* antecedent counters (vacuity) *)
 IsOp(n) == ev.name = n
-Big == 100000000       \* anything this large is one of the 2^63 / 2^64 boundary amounts
+Big == obs.hunit - 1    \* an amount of at least one unit of the history's base 2^base
+BaseOp(b, n) == obs.base = b /\ IsOp(n) /\ ev.ok /\ ev.amt > Big
+BaseNames == {"base31", "base32", "base53", "base62", "base63"}
+BaseNum(c) == CASE c = "base31" -> 31 [] c = "base32" -> 32 [] c = "base53" -> 53
+                [] c = "base62" -> 62 [] c = "base63" -> 63
 IsOwner == HasDenom(pre, ev.cls) /\ pre.cls[ev.cls].owner = ev.who
 IsStranger == HasDenom(pre, ev.cls) /\ pre.cls[ev.cls].owner # ev.who
 Exercised ==
@@ -83,7 +90,12 @@ Exercised ==
           "mint_to_max", "mint_big", "edit_ok", "edit_keep", "edit_stranger_rej",
           "transfer_ok", "transfer_self", "transfer_insufficient_rej", "transfer_big", "transfer_all",
           "burn_ok", "burn_insufficient_rej", "burn_to_zero", "burn_big",
-          "handover_ok", "handover_stranger_rej", "old_owner_mint_rej", "new_owner_mint_ok", "reject"} :
+          "handover_ok", "handover_stranger_rej", "old_owner_mint_rej", "new_owner_mint_ok", "reject",
+          "base31_mint", "base31_transfer", "base31_burn", "base31_overflow_rej",
+          "base32_mint", "base32_transfer", "base32_burn", "base32_overflow_rej",
+          "base53_mint", "base53_transfer", "base53_burn", "base53_overflow_rej",
+          "base62_mint", "base62_transfer", "base62_burn", "base62_overflow_rej",
+          "base63_mint", "base63_transfer", "base63_burn", "base63_overflow_rej"} :
      CASE c = "issue_ok" -> IsOp("IssueDenom") /\ ev.ok
        [] c = "mint_new_ok" -> IsOp("MintMT") /\ ev.ok /\ ev.id = ""
        [] c = "mint_more_ok" -> IsOp("MintMT") /\ ev.ok /\ ev.id # ""
@@ -110,7 +122,18 @@ Exercised ==
        [] c = "handover_stranger_rej" -> IsOp("TransferDenom") /\ ~ev.ok /\ IsStranger
        [] c = "old_owner_mint_rej" -> IsOp("MintMT") /\ ~ev.ok /\ IsStranger /\ ev.cls \in gh.handed
        [] c = "new_owner_mint_ok" -> IsOp("MintMT") /\ ev.ok /\ ev.cls \in gh.handed
-       [] c = "reject" -> ~ev.ok}
+       [] c = "reject" -> ~ev.ok
+       \* magnitude strata: operations with amounts >= 2^base, per base
+       [] \E b \in BaseNames : c = b \o "_mint" ->
+            \E b \in BaseNames : c = b \o "_mint" /\ BaseOp(BaseNum(b), "MintMT")
+       [] \E b \in BaseNames : c = b \o "_transfer" ->
+            \E b \in BaseNames : c = b \o "_transfer" /\ BaseOp(BaseNum(b), "TransferMT") /\ ev.to # ev.who
+       [] \E b \in BaseNames : c = b \o "_burn" ->
+            \E b \in BaseNames : c = b \o "_burn" /\ BaseOp(BaseNum(b), "BurnMT")
+       [] \E b \in BaseNames : c = b \o "_overflow_rej" ->
+            \E b \in BaseNames : c = b \o "_overflow_rej" /\ obs.base = BaseNum(b)
+               /\ IsOp("MintMT") /\ ~ev.ok /\ IsOwner /\ HasMT(pre, ev.cls, ev.id)
+               /\ ev.amt > 0 /\ pre.maxU - SupOf(pre, ev.cls, ev.id) < ev.amt}
 Coverage == Exercised = {} \/ PrintT(<<"EXERCISED", Exercised>>)
 
 Report == (l = Len(Trace) + 1) => PrintT(<<"TRACE-END", Len(Trace), drift, driftAt>>)
